@@ -276,6 +276,8 @@ def run(ctx):
   instance_state(ctx, 'C08.sync', SM, set(fields), 'a third field must be kept in step with the tree and the map by every mutator')
   finalize_conflict_guard(ctx, 'C08.hook-keys')
   method_selector_rule(ctx, 'C08.minimal')
+  from .common import rehoming_rules
+  rehoming_rules(ctx, 'C08.sync', 'C08.funnel')
 
   # ---- C08.exact-first
   mt = sm.methods.get('matching_selectors')
